@@ -231,6 +231,13 @@ def h_within(reg, D, uni, cached, pts):
             return out
         in1d = isin
 
+        def zeros(self, shape, dtype=None, **kw):
+            if dtype is bool:
+                out = real_np.empty(shape, dtype=object)
+                out[...] = False
+                return out
+            return real_np.zeros(shape, dtype=dtype, **kw) if dtype is not None else real_np.zeros(shape, **kw)
+
     def h(c):
         reg.np = NP()
         a = mk(reg, 'a', D, uni, cached)
@@ -247,6 +254,39 @@ def h_within(reg, D, uni, cached, pts):
         c.oblige(tag + ':non-finite never inside', z3.And([z3.Not(core.lb(x)) for x in bad]))
         na = alpha(a, uni)
         c.oblige(tag + ':query leaves alpha', z3.And([na[u] == ea[u] for u in ea]))
+        return tag
+    return h
+
+
+def h_nonfinite(reg, cached):
+    """whole-sky universe at depth 1 (all 48 pixels symbolic): wherever a non-finite position may be mapped to, the answer must be False"""
+    import numpy as real_np
+
+    def h(c):
+        class NP(loader.NPProxy):
+            def isin(self, pix, lst):
+                out = real_np.empty(len(pix), dtype=object)
+                for i, p in enumerate(pix):
+                    out[i] = SB(z3.Or([FALSE] + [g.g for g in lst if isinstance(g, G) and g.v == int(p)] + [TRUE for g in lst if not isinstance(g, G) and g == int(p)]))
+                return out
+            in1d = isin
+
+            def zeros(self, shape, dtype=None, **kw):
+                if dtype is bool:
+                    out = real_np.empty(shape, dtype=object)
+                    out[...] = False
+                    return out
+                return real_np.zeros(shape, dtype=dtype, **kw) if dtype is not None else real_np.zeros(shape, **kw)
+        reg.np = NP()
+        uni = {1: list(range(48))}
+        a = mk(reg, 'a', 1, uni, cached)
+        nan, inf = real_np.nan, real_np.inf
+        ra = real_np.array([nan, 0.1, nan, inf, 1.0, 4.0])
+        dec = real_np.array([0.1, inf, nan, 0.3, nan, -inf])
+        res = a.sky_within(ra, dec, degin=False)
+        res2 = a.sky_within(real_np.degrees(ra), real_np.degrees(dec), degin=True)
+        tag = 'sky_within non-finite[all-sky depth 1,cache=%d]' % cached
+        c.oblige(tag + ':never inside, whatever the region', z3.And([z3.Not(core.lb(x)) for x in list(res) + list(res2)]))
         return tag
     return h
 
@@ -340,6 +380,21 @@ def replay_case(w):
             if got != want:
                 return True, 'stale-cache', 'get_demoted after add_pixels: got %d pixels, expected %d' % (len(got), len(want))
             a._renorm()
+        elif op == 'within':
+            import healpy
+            import numpy
+            want = ea
+            top = 4 ** (D - 1) if not w.get('allsky') else 12 * 4 ** D
+            pts = list(range(top))
+            th, ph = healpy.pix2ang(2 ** D, numpy.array(pts), nest=True)
+            got = a.sky_within(ph, numpy.pi / 2 - th, degin=False)
+            got2 = a.sky_within(numpy.degrees(ph), numpy.degrees(numpy.pi / 2 - th), degin=True)
+            for p, g, g2 in zip(pts, got, got2):
+                if bool(g) != (p in ea) or bool(g2) != (p in ea):
+                    return True, 'membership', 'sky_within(centre of depth-%d pixel %d) = %s/%s but the pixel is %sin the region (levels %s, after query=%s)' % (D, p, bool(g), bool(g2), '' if p in ea else 'not ', a_lv, bool(w.get('cachedA')))
+            bad_ = a.sky_within(numpy.array([numpy.nan, 0.1, numpy.nan, numpy.inf]), numpy.array([0.1, numpy.inf, numpy.nan, 0.3]), degin=False)
+            if any(bool(x) for x in bad_):
+                return True, 'non-finite-inside', 'sky_within answers True for a non-finite position (levels %s)' % a_lv
         elif op == 'query':
             want = ea
             area = a.get_area(degrees=False)
@@ -379,6 +434,8 @@ def handle_models(rep, res, meta):
                     w['pix'] = sorted(int(k.split('_')[1]) for k, v in m.items() if k.startswith('p%d_' % meta['pix_depth']) and v is True)
                 if meta['op'] == 'query':
                     w['nodup'] = 'area' in ob['name']
+                if meta.get('allsky'):
+                    w['allsky'] = True
                 w['obligation'] = ob['name']
                 try:
                     bad, cls, detail = replay_case(w)
@@ -434,7 +491,9 @@ def run(rep):
             for dep in range(1, D + 1):
                 cases.append((h_addpix(reg, D, uni, cA, dep), dict(op='add_pixels', D=D, cachedA=cA, pix_depth=dep)))
             pts = random.Random(rep.seed).sample(range(4 ** (D - 1)), min(4, 4 ** (D - 1)))
-            cases.append((h_within(reg, D, uni, cA, pts), dict(op='query', D=D, cachedA=cA)))
+            cases.append((h_within(reg, D, uni, cA, pts), dict(op='within', D=D, cachedA=cA)))
+    for cA in (False, True):
+        cases.append((h_nonfinite(reg, cA), dict(op='within', D=1, cachedA=cA, allsky=True)))
     budget = 60 if not thorough else 600
     for h, meta in cases:
         st, res = explore(h, workers=workers, wall_s=budget)
